@@ -4,6 +4,8 @@ import (
 	"bytes"
 	"encoding/json"
 	"fmt"
+	"os"
+	"path/filepath"
 	"runtime"
 	"sync"
 	"time"
@@ -52,6 +54,17 @@ type ValidateOpts struct {
 func (c *Ctx) ValidateTraces(traces []*Trace, o ValidateOpts) []Rejection {
 	if o.ChunkSize == 0 {
 		o.ChunkSize = 20000
+	}
+	// debugging aid: VERIF_DUMP=<dir> keeps every trace handed to TLC
+	if d := os.Getenv("VERIF_DUMP"); d != "" {
+		os.MkdirAll(d, 0o755)
+		for _, t := range traces {
+			var b []byte
+			for _, e := range t.Events {
+				b = append(append(b, e...), '\n')
+			}
+			os.WriteFile(filepath.Join(d, c.ID+"-"+t.Label+".ndjson"), b, 0o644)
+		}
 	}
 	if o.Parallel == 0 {
 		o.Parallel = runtime.NumCPU() / 2
